@@ -3,6 +3,7 @@ C11 — Guided remediation only upgrades, and only as far as the policy allows.
 Property theorems only; helper lemmas live in `Scalibr.Proofs.Upgrade`.
 -/
 import Scalibr.Proofs.Upgrade
+import Scalibr.Proofs.UpgradeConfig
 import Scalibr.Gen.Allows
 
 namespace Scalibr.Upgrade
@@ -25,6 +26,33 @@ theorem C11_allows_meaning (d : Nat) :
   · by_cases h : d = 0 <;> simp [h]
   · by_cases h : d = 0 <;> simp [h]
   · by_cases h : d = 0 <;> simp [h]
+
+/-- The textual configuration (`NewConfigFromStrings`, the CLI's `--upgrade-config`) means what its entries say: for ANY list of
+entries "pkg:word" / "word" whose words hold no colon — package names with any number of colons (Maven `group:artifact`),
+repeated packages, unknown words, blanks anywhere — the level `Config.Get` returns for ANY package is the level of the last
+entry naming it with one of the four level words, else that of the last such default entry, else Major. -/
+theorem C11_config_strings_meaning (es : List Entry) (hwf : ∀ e ∈ es, WFentry e) (p : List Char) :
+    configGet (configFromStrings (es.map render)) p = intended es p :=
+  configGet_strings es hwf p
+
+/-- … and so every strategy is handed the intended permission: `Allows` of the parsed level is `Allows` of the intended one. -/
+theorem C11_config_strings_allows (es : List Entry) (hwf : ∀ e ∈ es, WFentry e) (p : List Char) (d : Nat) :
+    allows (configGet (configFromStrings (es.map render)) p) d = allows (intended es p) d := by
+  rw [C11_config_strings_meaning es hwf p]
+
+/-- decided instances: a Maven entry splits at its LAST colon (`g:a:none` restricts `g:a`, it is not package `g` with the
+non-level `a:none`); later entries win; unknown words and blanks around the word make the entry invalid (ignored), a blank
+before the colon belongs to the package name. -/
+theorem C11_config_strings_witnesses :
+    parseEntry "g:a:none".toList = some ("g:a".toList, lNone) ∧
+    configGet (configFromStrings ["minor".toList, "g:a:none".toList]) "g:a".toList = lNone ∧
+    configGet (configFromStrings ["minor".toList, "g:a:none".toList]) "g".toList = lMinor ∧
+    configGet (configFromStrings ["@s/p:patch".toList, "@s/p:major".toList, ":none".toList]) "@s/p".toList = lMajor ∧
+    configGet (configFromStrings ["@s/p:patch".toList, "@s/p:major".toList, ":none".toList]) "q".toList = lNone ∧
+    parseEntry "p:latest".toList = none ∧ parseEntry "p: minor".toList = none ∧ parseEntry "minor ".toList = none ∧
+    parseEntry "p :minor".toList = some ("p ".toList, lMinor) ∧
+    configGet (configFromStrings ["p:latest".toList]) "p".toList = lMajor := by
+  decide
 
 end Scalibr.Upgrade
 
